@@ -11,7 +11,8 @@ static int it_kind;              /* 0 none, 1 it_, 3 zit_ */
 static CC_SListIter it;
 static CC_SListZipIter zit;
 static int it_o, it_o2, it_changed;
-static void shim_reset(void) { for (int i = 0; i < NSLOT; i++) L[i] = NULL; it_kind = 0; }
+static int sparse;   /* obs=sparse on a constructor line: no observation through the library except by `observe` */
+static void shim_reset(void) { for (int i = 0; i < NSLOT; i++) L[i] = NULL; it_kind = 0; sparse = 0; }
 
 static int cmp_num(const void *a, const void *b) { uintptr_t x = (uintptr_t)a, y = (uintptr_t)b; return x < y ? -1 : x > y; }
 static int cmp_key(const void *a, const void *b) { uintptr_t x = (uintptr_t)a % 10, y = (uintptr_t)b % 10; return x < y ? -1 : x > y; }
@@ -101,8 +102,10 @@ static void do_op(Cmd *c) {
     int k = (int)kv_u64(c, "o", 0), from = (int)kv_u64(c, "from", 1), to = (int)kv_u64(c, "to", 1);
     uint64_t v = pos_u64(c, 0), idx = kv_u64(c, "idx", 0);
     int is_it = !strncmp(c->op, "it_", 3) || !strncmp(c->op, "zit_", 4);
-    if (!is_it) it_kind = 0;
+    if (!is_it && !is_op(c, "observe")) it_kind = 0;
+    if (!strncmp(c->op, "new", 3) && !strcmp(kv_str(c, "obs", "full"), "sparse")) sparse = 1;
     if (k < 0 || k >= NSLOT || from < 0 || from >= NSLOT || to < 0 || to >= NSLOT) { o("st=- badslot "); goto done; }
+    if (is_op(c, "observe")) { o("st=- "); sweep_slot = -1; obs_all(); o_sep(); phys(); return; }
     CC_SList *l = L[k];
     if (is_op(c, "new")) {
         if (l) { o("st=- busy "); goto done; }
@@ -213,5 +216,6 @@ static void do_op(Cmd *c) {
         o_stat(st); o(" ");
     } else { o("st=- badop "); }
 done:
-    obs_all(); o_sep(); phys();
+    if (sparse) { o("sparse"); sweep_slot = -1; } else obs_all();
+    o_sep(); phys();
 }
